@@ -142,7 +142,9 @@ func (r *Recomposer) registerAnyComposer(rt reflect.Type, fun RecomposeAnyFunc) 
 		return nil, fmt.Errorf("only structs can be recomposed. %s is not a struct type", rt)
 	}
 	c := r.composers[full]
-	if c == nil {
+	if c == nil || c.rtype != rt {
+		// Not registered, or the name belongs to another type (struct
+		// literals all have the name "").
 		c = &composer{
 			any:   fun,
 			short: rt.Name(),
